@@ -314,7 +314,7 @@ package server
 //@     assert [only-complete-entities] $arg0 != nil
 
 //@ unit (*EntityStreamParser).ParseTransaction
-//@   prop C15
+//@   prop C15 C01 C04
 //@   requires esp != nil && esp.localNamespaces != nil && esp.store != nil && esp.localPropertyMappings != nil
 //@   requires [callers-hold-no-lock-at-or-above-the-namespace-lock] forall l int :: has($held, l) ==> lockLevel(l) < 5
 //@   requires [namespace-registry] esp.store.NamespaceManager != nil && !has($held, addrOf(esp.store.NamespaceManager.lock))
@@ -1021,7 +1021,7 @@ package server
 //@   at call Marshal#1 before
 //@     assert [C14:renamed-record-carries-the-new-name] cast(v, "*server.Dataset") == ds && ds.ID == newName && newName == config.ID
 //@   at call moveValue#1 before
-//@     assert [C14,C07:record-moves-from-the-key-of-the-old-name-to-the-key-of-the-new-name] recordName(oldKey) == name && recordName(newKey) == newName
+//@     assert [C14,C07,C19:record-moves-from-the-key-of-the-old-name-to-the-key-of-the-new-name] recordName(oldKey) == name && recordName(newKey) == newName
 //@     assert [C14:moved-record-is-the-serialised-renamed-dataset] newValue == jsonData
 //@   at call moveValue#1
 //@     ghost movedG := $result == nil
@@ -1198,6 +1198,7 @@ package server
 //@ unit server.NewContextualStore
 //@   prop C07
 //@   requires store != nil
+//@   modifies none
 //@   ensures [C07:a-contextual-store-filters-with-the-deleted-set-published-in-the-store-the-dataset-manager-works-on] result != nil && result.parent == (store.parent != nil ? store.parent : store) && result.database == store.database
 //@   ensures [C07:a-contextual-store-shares-the-dataset-registry] result.datasets == store.datasets && result.datasetsByInternalID == store.datasetsByInternalID && result.NamespaceManager == store.NamespaceManager
 //@ unit (*Store).GetEntityAtPointInTimeWithInternalID
@@ -1883,3 +1884,70 @@ package server
 //@   requires [callers-hold-no-lock] forall l int :: has($held, l) ==> lockLevel(l) < 1
 //@   at call RemoveAll#1 before
 //@     assert [C20,C14:wiping-the-store-removes-the-store-directory-with-the-stores-identity-file] path == s.storeLocation
+
+// a proxy dataset parses every response of its remote with a parser of its own: the namespace context of one response
+// (prefixes, cached property expansions) never leaks into the next one
+// (the request context and the request object are library values; the authoriser and the pre-stream callback are the
+// caller's: neither touches the dataset, its store or the proxy configuration)
+//@ assumed (*ProxyDataset).newHttpContext
+//@   pure
+//@ assumed server.URLJoin
+//@   pure
+// the proxy view of a dataset wraps that dataset and carries the authoriser it was given
+//@ unit (*Dataset).AsProxy
+//@   prop C15 C01 C02
+//@   requires ds != nil
+//@   modifies none
+//@   ensures [C15,C01,C02:the-proxy-view-wraps-the-dataset-it-was-asked-for] result != nil && fresh(result) && result.badgerDataset == ds
+//@ unit (*ProxyDataset).StreamEntitiesRaw
+//@   prop C15
+//@   ghost proxyParserG *EntityStreamParser = nil
+//@   requires d != nil
+//@   requires-inv [a-proxy-wraps-a-constructed-dataset] d != nil ==> d.badgerDataset != nil && d.badgerDataset.store != nil && d.badgerDataset.store.NamespaceManager != nil
+//@   requires [callers-hold-no-lock-at-or-above-the-namespace-lock] forall l int :: has($held, l) ==> lockLevel(l) < 5
+//@   dyncall auth preserves ProxyDataset.*, Dataset.*, Store.*
+//@   dyncall preStream preserves ProxyDataset.*, Dataset.*, Store.*
+//@   dyncall dynamic pure
+//@   at call NewEntityStreamParser#1
+//@     ghost proxyParserG := $result
+//@   at call ParseStream#1 before
+//@     assert [C15:every-proxied-response-is-parsed-by-a-new-parser] proxyParserG != nil && $arg0 == proxyParserG
+//@ unit (*ProxyDataset).StreamEntities
+//@   prop C15
+//@   ghost proxyParserG *EntityStreamParser = nil
+//@   requires d != nil
+//@   requires-inv [a-proxy-wraps-a-constructed-dataset] d != nil ==> d.badgerDataset != nil && d.badgerDataset.store != nil && d.badgerDataset.store.NamespaceManager != nil
+//@   requires [callers-hold-no-lock-at-or-above-the-namespace-lock] forall l int :: has($held, l) ==> lockLevel(l) < 5
+//@   dyncall auth preserves ProxyDataset.*, Dataset.*, Store.*
+//@   dyncall preStream preserves ProxyDataset.*, Dataset.*, Store.*
+//@   dyncall dynamic pure
+//@   at call NewEntityStreamParser#1
+//@     ghost proxyParserG := $result
+//@   at call ParseStream#1 before
+//@     assert [C15:every-proxied-response-is-parsed-by-a-new-parser] proxyParserG != nil && $arg0 == proxyParserG
+//@ unit (*ProxyDataset).StreamChangesRaw
+//@   prop C15
+//@   ghost proxyParserG *EntityStreamParser = nil
+//@   requires d != nil
+//@   requires-inv [a-proxy-wraps-a-constructed-dataset] d != nil ==> d.badgerDataset != nil && d.badgerDataset.store != nil && d.badgerDataset.store.NamespaceManager != nil
+//@   requires [callers-hold-no-lock-at-or-above-the-namespace-lock] forall l int :: has($held, l) ==> lockLevel(l) < 5
+//@   dyncall auth preserves ProxyDataset.*, Dataset.*, Store.*
+//@   dyncall preStream preserves ProxyDataset.*, Dataset.*, Store.*
+//@   dyncall dynamic pure
+//@   at call NewEntityStreamParser#1
+//@     ghost proxyParserG := $result
+//@   at call ParseStream#1 before
+//@     assert [C15:every-proxied-response-is-parsed-by-a-new-parser] proxyParserG != nil && $arg0 == proxyParserG
+//@ unit (*ProxyDataset).StreamChanges
+//@   prop C15
+//@   ghost proxyParserG *EntityStreamParser = nil
+//@   requires d != nil
+//@   requires-inv [a-proxy-wraps-a-constructed-dataset] d != nil ==> d.badgerDataset != nil && d.badgerDataset.store != nil && d.badgerDataset.store.NamespaceManager != nil
+//@   requires [callers-hold-no-lock-at-or-above-the-namespace-lock] forall l int :: has($held, l) ==> lockLevel(l) < 5
+//@   dyncall auth preserves ProxyDataset.*, Dataset.*, Store.*
+//@   dyncall preStream preserves ProxyDataset.*, Dataset.*, Store.*
+//@   dyncall dynamic pure
+//@   at call NewEntityStreamParser#1
+//@     ghost proxyParserG := $result
+//@   at call ParseStream#1 before
+//@     assert [C15:every-proxied-response-is-parsed-by-a-new-parser] proxyParserG != nil && $arg0 == proxyParserG
